@@ -131,7 +131,41 @@ func c07Pools(p *core.Program, r *core.Report, reg *registryResult) {
 		})
 		return out
 	}
-	cc, kc := caseMap(create), caseMap(closeF)
+	cc := caseMap(create)
+	// where ClosePack returns each code to: a switch (`case K: pool.Put(p)`) or a table of pools
+	// (`map[K]*sync.Pool{K: &pool}` looked up and Put)
+	closePool := map[string]types.Object{}
+	closeEntries, _ := factoryEntries(p, closeF)
+	putSeen := false
+	ast.Inspect(closeF.Decl.Body, func(n ast.Node) bool {
+		if c, ok := n.(*ast.CallExpr); ok {
+			if sel, ok := c.Fun.(*ast.SelectorExpr); ok && sel.Sel.Name == "Put" {
+				putSeen = true
+			}
+		}
+		return true
+	})
+	for _, ent := range closeEntries {
+		var pool types.Object
+		if cl, ok := ent.Body.(*ast.CaseClause); ok {
+			pool, _ = poolOf(cl, "Put")
+		} else if ex, ok := ent.Body.(ast.Expr); ok && putSeen {
+			ex = ast.Unparen(ex)
+			if u, ok := ex.(*ast.UnaryExpr); ok && u.Op == token.AND {
+				ex = ast.Unparen(u.X)
+			}
+			if id, ok := ex.(*ast.Ident); ok {
+				if o := info.ObjectOf(id); o != nil && strings.HasSuffix(strings.TrimPrefix(o.Type().String(), "*"), "sync.Pool") {
+					pool = o
+				}
+			}
+		}
+		for _, ke := range ent.Keys {
+			if tv, ok := info.Types[ke]; ok && tv.Value != nil && pool != nil {
+				closePool[tv.Value.ExactString()] = pool
+			}
+		}
+	}
 	// pool New types
 	poolNew := map[types.Object]*types.Named{}
 	for _, f := range create.Pkg.Syntax {
@@ -210,15 +244,10 @@ func c07Pools(p *core.Program, r *core.Report, reg *registryResult) {
 		if !verSet {
 			why = append(why, "Ver is not re-assigned from the requested version after Get()")
 		}
-		kcl := kc[k]
-		if kcl == nil {
-			why = append(why, "ClosePack has no case for this code: packs are never returned to the pool")
-		} else if pp, _ := poolOf(kcl, "Put"); pp != gp {
-			name := "<none>"
-			if pp != nil {
-				name = pp.Name()
-			}
-			why = append(why, fmt.Sprintf("CreatePack takes from %s but ClosePack puts into %s", gp.Name(), name))
+		if pp, has := closePool[k]; !has {
+			why = append(why, "ClosePack has no entry for this code: packs are never returned to the pool")
+		} else if pp != gp {
+			why = append(why, fmt.Sprintf("CreatePack takes from %s but ClosePack puts into %s", gp.Name(), pp.Name()))
 		}
 		if len(why) > 0 {
 			r.Viol("C07.registry", c, pos, strings.Join(why, "; "))
